@@ -18,7 +18,19 @@ import (
 type vRecord struct {
 	name, renamed, hash string
 	size                int64
-	old                 bool // older than any window a caller passes
+	old                 bool      // logged 10 days before "now" (outside the window a restart reloads)
+	t                   time.Time // when it was logged
+}
+
+func (l *vLogger) visible(r vRecord, after time.Time) bool {
+	t := r.t
+	if r.old {
+		t = l.v.Now().Add(-10 * 24 * time.Hour)
+	}
+	if t.IsZero() {
+		return true
+	}
+	return !t.Before(after)
 }
 
 // vLogger answers exactly: a record matches iff name (and hash, when given)
@@ -31,7 +43,7 @@ type vLogger struct {
 }
 
 func (l *vLogger) Received(f sts.Received) {
-	l.records = append(l.records, vRecord{name: f.GetName(), renamed: f.GetRenamed(), hash: f.GetHash(), size: f.GetSize()})
+	l.records = append(l.records, vRecord{name: f.GetName(), renamed: f.GetRenamed(), hash: f.GetHash(), size: f.GetSize(), t: l.v.Now()})
 	if l.onReceived != nil {
 		l.onReceived(f.GetName())
 	}
@@ -39,7 +51,7 @@ func (l *vLogger) Received(f sts.Received) {
 
 func (l *vLogger) WasReceived(name, hash string, after, before time.Time) bool {
 	for _, r := range l.records {
-		if !r.old && r.name == name && (hash == "" || r.hash == hash) {
+		if l.visible(r, after) && r.name == name && (hash == "" || r.hash == hash) {
 			return true
 		}
 	}
@@ -48,10 +60,17 @@ func (l *vLogger) WasReceived(name, hash string, after, before time.Time) bool {
 
 func (l *vLogger) Parse(handler func(name, renamed, hash string, size int64, t time.Time) bool, after, before time.Time) bool {
 	for _, r := range l.records {
-		if r.old {
+		if !l.visible(r, after) {
 			continue
 		}
-		if handler(r.name, r.renamed, r.hash, r.size, l.v.Now()) {
+		t := r.t
+		if r.old {
+			t = l.v.Now().Add(-10 * 24 * time.Hour)
+		}
+		if t.IsZero() {
+			t = l.v.Now()
+		}
+		if handler(r.name, r.renamed, r.hash, r.size, t) {
 			return true
 		}
 	}
@@ -126,3 +145,5 @@ func emptyDir(v *verifrt.T, dir string) {
 		os.Remove(filepath.Join(dir, f))
 	}
 }
+
+func osRemoveFile(p string) { os.Remove(p) }
